@@ -553,6 +553,6 @@ def run(ctx):
 
     r = ctx.rule('R06f', 'bitmaps built from index lists are consumed only through single-bit tests',
                  'convert_list_to_bitmap sign-extends at index 31: a population count or whole-word comparison miscounts stripes that use fragment 31')
-    shared.rule_list_bitmaps(ctx, P, r)
+    shared.rule_list_bitmaps(ctx, P, r, every_backend=True)          # the adapters of external libraries answer fragments_needed themselves
     r.require_min(1)
     ctx.borrow('c05', ['R05f'], 'the planner classifies the merged list with the same failure-pattern machine as the decoder')
